@@ -22,6 +22,9 @@ int fn_altstack(const char*);
 int fn_vfexec(const char*);
 int fn_print(const char*);
 int fn_tf(const char*);
+#ifdef BTCDEB_VERIF
+int fn_vdump(const char*);
+#endif
 char* compl_exec(const char*, int);
 char* compl_tf(const char*, int);
 int print_stack(std::vector<valtype>&, bool raw = false);
